@@ -155,8 +155,12 @@ let handle (line : string) : string =
   | ["p"; c; m; p] -> "c=" ^ c_params !xcache (str_of_hex c) (str_of_hex m) (str_of_hex p)
   | ["s"; t] -> "c=" ^ c_text !xcache (str_of_hex t)
   | ["g"; s] -> "c=" ^ c_sig !xcache (str_of_hex s)
-  | ["FR"; h] -> (match parse_frame (str_of_hex h) with None -> "~" | Some f -> show_frame f)
-  | ["TH"; h] -> (match parse_throwable (str_of_hex h) with None -> "~" | Some (c, m) -> hex_of_str c ^ ":" ^ tok_of_ostr m)
+  | ["FR"; h] ->
+    let b = str_of_hex h in   (* StackFrame::try_parse: from_utf8 first *)
+    (match (if utf8_valid b then parse_frame b else None) with None -> "~" | Some f -> show_frame f)
+  | ["TH"; h] ->
+    let b = str_of_hex h in
+    (match (if utf8_valid b then parse_throwable b else None) with None -> "~" | Some (c, m) -> hex_of_str c ^ ":" ^ tok_of_ostr m)
   | ["V"; h] -> "ok=" ^ b2s (layout_ok (str_of_hex h))
   | "U" :: _ -> "u=" ^ hex_of_str (mapping_uuid st.bytes)
   | ["US"; a; b] ->
